@@ -59,6 +59,8 @@ func vC03Install() {
 	vC03Cids = map[string]string{}
 	rt.Replace("github.com/anyproto/any-sync/util/cidutil.VerifyCid", func(data []byte, id string) bool { return vC03Cid(data) == id })
 	rt.Replace("github.com/anyproto/any-sync/util/cidutil.NewCidFromBytes", func(data []byte) (string, error) { return vC03Cid(data), nil })
+	// the AclState makes its own key storage: identities and keys in records decode to the fakes
+	vCryptoInstall()
 }
 
 // signed, acceptor-signed, content-addressed raw record
@@ -131,6 +133,20 @@ func vC03Observe(l *aclList) string {
 	for _, k := range st.readKeyChanges {
 		out += k + ","
 	}
+	// key entries: one per record id that introduced a key generation, nothing else
+	out += ";keys=" + string(rune('0'+len(st.keys))) + ":"
+	for _, id := range append([]string{""}, l.recordIds()...) {
+		if k, ok := st.keys[id]; ok {
+			out += id
+			if k.ReadKey != nil {
+				out += "+r"
+			}
+			if k.MetadataPubKey != nil {
+				out += "+m"
+			}
+			out += ","
+		}
+	}
 	out += ";opts=" + string(rune('0'+len(st.optionChanges)))
 	return out
 }
@@ -143,7 +159,18 @@ func (a *aclList) recordIds() []string {
 	return ids
 }
 
-func vC03Content(kind int) *aclrecordproto.AclContentValue {
+// a read key change addressed to exactly the accounts that hold a permission in st (what the validator demands)
+func vC03ReadKeyChange(st *AclState) *aclrecordproto.AclReadKeyChange {
+	ch := &aclrecordproto.AclReadKeyChange{MetadataPubKey: []byte("mk"), EncryptedMetadataPrivKey: []byte("emk"), EncryptedOldReadKey: []byte("eok")}
+	for _, id := range []string{"own", "a1", "a2", "a3"} {
+		if as, ok := st.accountStates[id]; ok && !as.Permissions.NoPermissions() {
+			ch.AccountKeys = append(ch.AccountKeys, &aclrecordproto.AclEncryptedReadKey{Identity: []byte(id), EncryptedReadKey: []byte("E(" + id + ")k")})
+		}
+	}
+	return ch
+}
+
+func vC03Content(kind int, st *AclState) *aclrecordproto.AclContentValue {
 	perm := func() aclrecordproto.AclUserPermissions {
 		return []aclrecordproto.AclUserPermissions{aclrecordproto.AclUserPermissions_Reader, aclrecordproto.AclUserPermissions_Writer, aclrecordproto.AclUserPermissions_Admin}[rt.Choose(3)]
 	}
@@ -163,6 +190,8 @@ func vC03Content(kind int) *aclrecordproto.AclContentValue {
 	case 5:
 		cv.Value = &aclrecordproto.AclContentValue_PermissionChanges{PermissionChanges: &aclrecordproto.AclAccountPermissionChanges{Changes: []*aclrecordproto.AclAccountPermissionChange{
 			{Identity: []byte("a1"), Permissions: perm()}, {Identity: []byte("a2"), Permissions: perm()}}}}
+	case 6:
+		cv.Value = &aclrecordproto.AclContentValue_ReadKeyChange{ReadKeyChange: vC03ReadKeyChange(st)}
 	}
 	return cv
 }
@@ -184,7 +213,7 @@ func VerifC03Chain() {
 		nContents := 1 + rt.Choose(2)
 		var cs []*aclrecordproto.AclContentValue
 		for i := 0; i < nContents; i++ {
-			cs = append(cs, vC03Content(rt.Choose(6)))
+			cs = append(cs, vC03Content(rt.Choose(7), live.aclState))
 		}
 		prev := live.Head().Id
 		mutation := rt.Choose(6)
@@ -261,7 +290,7 @@ func VerifC03Fault() {
 	root := vC03Root("own")
 	live, store, err := vC03List([]*consensusproto.RawRecordWithId{root}, v, "obs")
 	rt.Assert(err == nil, "build-root")
-	rec := vC03Record(root.Id, "own", vC03Content(rt.Choose(6)))
+	rec := vC03Record(root.Id, "own", vC03Content(rt.Choose(7), live.aclState))
 	// only records that a fault-free list accepts are interesting here
 	twin, _, err := vC03List([]*consensusproto.RawRecordWithId{root}, v, "obs")
 	rt.Assert(err == nil, "build-twin")
